@@ -22,8 +22,13 @@ import time
 from vlib import core
 from checks import pipeline_common as pc
 from checks import pipeline_inputs_part, fileset_part
+from checks import c07_builder_corpus as bc
 
-PKG = {"p": "alpha", "q": "beta", "r": "gamma"}
+# corpus entries with their own pipeline file: the shared ones (C03 explores them too) and the C07-only ones
+ENTRIES = dict(pc.GROWTH_ENTRIES)
+ENTRIES.update(bc.C07_ENTRIES)
+
+PKG = {"p": "alpha", "q": "beta", "r": "gamma", "o": "aardvark"}      # o / r: the unrelated package, ordered before / after the others
 LANGLOOP_SITE = "codegen.(*Pipeline).Run/range targetsByLanguage"
 
 
@@ -248,18 +253,28 @@ class Plan:
         self.inputs_table = inputs_table
         self.n = 0
 
-    def add_entry(self, group, entry, langs, sched=None):
-        """A corpus entry of pipeline_common (its own pipeline file, veneers, passes) generated for a language subset."""
+    def add_entry(self, group, entry, langs, sched=None, pkgs=None):
+        """A corpus entry (its own pipeline file, veneers, passes) generated for a language subset. An entry that takes `pkgs`
+        builds one input per listed package, in that order, under ONE configuration: its inputs are then the unit the clauses
+        speak about (permuted, one more of them), like the inputs of add()."""
         self.n += 1
         name = "r%04d" % self.n
-        e = pc.GROWTH_ENTRIES[entry](self.base, name, langs=langs)
+        kw = {"pkgs": list(pkgs)} if pkgs else {}
+        e = ENTRIES[entry](self.base, name, langs=langs, **kw)
         job = {"id": name, "yaml": e["yaml"], "inspect": False, "outdir": "out", "langs": list(langs), "pkgs": e["pkgs"]}
         if sched:
             job["sched"] = sched
-        self.inputs_table["entry:" + entry] = {"pkg": entry}
+        if pkgs:
+            ids = ["entry:%s/%s" % (entry, p) for p in pkgs]
+            for i, p in zip(ids, pkgs):
+                self.inputs_table[i] = {"pkg": p}
+        else:
+            ids = ["entry:" + entry]
+            self.inputs_table["entry:" + entry] = {"pkg": entry}
         self.jobs.append(job)
-        self.meta[name] = {"group": group, "descs": [], "ids": ["entry:" + entry], "langs": list(langs), "flags": "builders", "allowed": "all",
-                           "ndef": 0, "sched": sched, "final": "", "cfg": "entry=" + entry, "entry": entry, "pkgs": e["pkgs"]}
+        self.meta[name] = {"group": group, "descs": [], "ids": ids, "langs": list(langs), "flags": "builders", "allowed": "all",
+                           "ndef": 0, "sched": sched, "final": "", "cfg": "entry=" + entry, "entry": entry, "pkgs": e["pkgs"],
+                           "entry_pkgs": list(pkgs) if pkgs else None}
         return name
 
     def add(self, group, descs, langs, flagname, allowed="all", ndef=0, sched=None, final="", passes=None):
@@ -325,8 +340,9 @@ def same_package_order(ma, mb):
     """Both runs list the inputs of every package in the same relative order (only inputs of DIFFERENT packages moved)."""
     def by_pkg(m):
         out = {}
-        for d, i in zip(m["descs"], m["ids"]):
-            out.setdefault(pkg_name(d), []).append(i)
+        names = [pkg_name(d) for d in m["descs"]] if m["descs"] else (m.get("entry_pkgs") or [])
+        for p, i in zip(names, m["ids"]):
+            out.setdefault(p, []).append(i)
         return out
     return by_pkg(ma) == by_pkg(mb)
 
@@ -353,6 +369,8 @@ def run(ctx):
     # (A) design level: the six hyper-properties on Pipeline2 (requirement level), cases for the real runs, model self-test
     req, cases = pc.tlc_requirement(ctx, ["same", "langs", "perm", "extra"], want_cases=True)
     faults = pc.tlc_faults(ctx, only=["nocopy", "overwrite", "dropgroup"][ctx.seed % 3] if quick else None)
+    if quick:       # and one of the two faults that need builders: state kept across languages / across packages
+        faults.update(pc.tlc_faults(ctx, only=["rulememo", "carry"][ctx.seed % 2]))
     by_rel = {}
     for c in cases:
         by_rel.setdefault(c["rel"], []).append(c)
@@ -425,6 +443,29 @@ def run(ctx):
         for ls in vsubsets:
             for sv in (sched_variants if len(ls) > 1 else [None]):
                 plan.add_entry("langs", entry, ls, sched=sv)
+
+    # builder transformations that RESOLVE PATHS against the language's own schemas (c07_builder_corpus: optional scalars and
+    # references, an anonymous struct, nested paths guarded in constructors and options) over packages of one and the same shape:
+    #   - language subsets in every loop order (what a rule keeps from the language before shows in the next one);
+    #   - one more twin package sorting before / between / after the ones that stay, both positions in the input list (what a
+    #     builder or package leaves behind shows in the following one), and the inputs permuted.
+    # All runs share one configuration (the veneer files of every twin package are always there): every pair of them is judged.
+    tpairs = [list(p) for p in itertools.combinations(full, 2)]
+    tsubsets = [[l] for l in full] + (tpairs[(ctx.seed + 2) % 3::3] if quick else tpairs) + [list(full)]
+    for ls in tsubsets:
+        for sv in (sched_variants if len(ls) > 1 else [None]):
+            plan.add_entry("langs", "twins", ls, sched=sv, pkgs=["alpha", "beta"])
+    twin_sets = [["beta"], ["alpha", "beta"], ["beta", "gamma"], ["gamma", "beta"], ["alpha", "gamma"], ["alpha", "beta", "gamma"],
+                 ["gamma", "alpha", "beta"], ["delta"], ["beta", "delta"]]
+    if not quick:
+        twin_sets += [list(p) for p in itertools.permutations(bc.TWINS, 2) if list(p) not in twin_sets]
+        twin_sets += [list(p) for p in itertools.permutations(["alpha", "beta", "delta"])] + [list(bc.TWINS), list(reversed(bc.TWINS))]
+    for ps in twin_sets:
+        plan.add_entry("twins", "twins", full, pkgs=ps)
+        if len(ps) <= 2:       # one language alone as well: the first builder that language sees is then the first of the run
+            blangs = ["go", "java", "php", "python", "typescript"]
+            for l in ([blangs[ctx.seed % 5]] if quick else sorted({"go", blangs[ctx.seed % 5]})):
+                plan.add_entry("twins", "twins", [l], pkgs=ps)
 
     # enums with NUMERIC member names (and values that need trimming): what RenameNumericEnumValues / TrimEnumValues write to
     ienum = {"abs": isect_abs, "fmt": "jsonschema", "special": "intenum"}
@@ -514,13 +555,13 @@ def run(ctx):
     extra_cases = by_rel["extra"][: (10 if quick else 100)] + [c for c in by_rel["extra"] if conflicting(c["inputs1"])][:1]
     for ci, c in enumerate(extra_cases):
         d1 = descs_of(c["inputs1"], ci + ctx.seed + 1)
-        extra_abs = [a for a in c["inputs2"] if a["pkg"] == "r"][0]
-        # the unrelated package sorts before ("aardvark") or after ("gamma") the others: Consolidate orders packages by name
-        ex = {"abs": extra_abs, "fmt": fmt_cycle(ci), "pkgname": "aardvark" if ci % 2 == 0 else "gamma"}
+        extra_abs = [a for a in c["inputs2"] if a["pkg"] in ("o", "r")][0]
+        # the unrelated package sorts before ("aardvark", TLC's o) or after ("gamma", TLC's r) the others: Consolidate orders packages by name
+        ex = {"abs": extra_abs, "fmt": fmt_cycle(ci), "pkgname": PKG[extra_abs["pkg"]]}
         d2 = []
         rest = list(d1)
         for a in c["inputs2"]:
-            d2.append(ex if a["pkg"] == "r" else rest.pop(0))
+            d2.append(ex if a["pkg"] in ("o", "r") else rest.pop(0))
         flagname = "builders" if ci % 2 == 1 else "types"
         plan.add("extra", d1, full, flagname, allowed=c["allowed"], ndef=c["ndefkeys"])
         plan.add("extra", d2, full, flagname, allowed=c["allowed"], ndef=c["ndefkeys"])
@@ -542,7 +583,7 @@ def run(ctx):
     def describe(name):
         m = plan.meta[name]
         return {"inputs": m["descs"], "langs": m["langs"], "flags": m["flags"], "allowed": m["allowed"], "ndef": m["ndef"], "sched": m["sched"],
-                "final": m.get("final", ""), "passes": m.get("passes"), "entry": m.get("entry")}
+                "final": m.get("final", ""), "passes": m.get("passes"), "entry": m.get("entry"), "entry_pkgs": m.get("entry_pkgs")}
 
     def pair_fail(clause, n1, n2, paths, what):
         py_pairs.add((min(n1, n2), max(n1, n2), clause))
@@ -705,6 +746,7 @@ def run(ctx):
     entries.append(pc.constref_entry(idir, "im-constref"))
     entries.append(pc.veneer_params_entry(idir, "im-veneerparams"))
     entries.append(pc.veneers_entry(idir, "im-veneers"))
+    entries.append(bc.twins_entry(idir, "im-twins", pkgs=["alpha", "beta", "gamma"]))
     entries.append(make_job(idir, "im-intenum", [{"abs": {"pkg": "p", "coll": False, "objs": {"A": {"body": "x", "ncands": 0}}}, "fmt": "jsonschema",
                                                  "special": "intenum"}], full, FLAGSETS["types"]))
     for e in entries:
@@ -887,7 +929,8 @@ def replay(ctx):
         jobs = []
         for k, x in enumerate(r["runs"]):
             if x.get("entry"):
-                e = pc.GROWTH_ENTRIES[x["entry"]](base, "replay%d" % k, langs=x["langs"])
+                kw = {"pkgs": x["entry_pkgs"]} if x.get("entry_pkgs") else {}
+                e = ENTRIES[x["entry"]](base, "replay%d" % k, langs=x["langs"], **kw)
                 j = {"id": "replay%d" % k, "yaml": e["yaml"], "inspect": False, "outdir": "out", "langs": x["langs"], "pkgs": e["pkgs"]}
                 if x["sched"]:
                     j["sched"] = x["sched"]
@@ -897,8 +940,9 @@ def replay(ctx):
         out = pc.run_jobs(ctx, "pipe-run", jobs, args=["-full"], parallel=2)
         a, b = sorted(out, key=lambda o: o["id"])
         common = set(r["runs"][0]["langs"]) & set(r["runs"][1]["langs"])
-        allp = sorted({pkg_name(i) for x in r["runs"] for i in x["inputs"]})
-        keep = sorted({pkg_name(i) for i in r["runs"][0]["inputs"]})
+        rpkgs = lambda x: [pkg_name(i) for i in x["inputs"]] or list(x.get("entry_pkgs") or [])
+        allp = sorted({p for x in r["runs"] for p in rpkgs(x)})
+        keep = sorted(set(min((rpkgs(x) for x in r["runs"]), key=len)))
         only = (lambda p: lang_of(p, pc.LANGS) in common) if clause != "UnrelatedInputIrrelevant" else (lambda p: pkg_of(p, allp) in keep)
         paths = diff_paths(a.get("files") or {}, b.get("files") or {}, only=only)
         if paths or bool(a["err"]) != bool(b["err"]):
@@ -929,6 +973,7 @@ def replay(ctx):
                    "im-constref": lambda: pc.constref_entry(idir, "im-constref"),
                    "im-veneerparams": lambda: pc.veneer_params_entry(idir, "im-veneerparams"),
                    "im-veneers": lambda: pc.veneers_entry(idir, "im-veneers"),
+                   "im-twins": lambda: bc.twins_entry(idir, "im-twins", pkgs=["alpha", "beta", "gamma"]),
                    "im-intenum": lambda: make_job(idir, "im-intenum", [{"abs": {"pkg": "p", "coll": False, "objs": {"A": {"body": "x", "ncands": 0}}},
                                                                         "fmt": "jsonschema", "special": "intenum"}], pc.LANGS, FLAGSETS["types"]),
                    "im-all": lambda: pc.feature_entry(idir, "im-all", {"pkgs": 2, "cands": 1, "defaults": 1, "compose": 2, "nested": 1, "collide": 1})}
